@@ -366,7 +366,9 @@ class Check(FormulaCheck):
         from .c09 import Falsy
         # every kind of falsy value is still a value: only None means "nothing set"
         pool = [0, False, '', [], None, None, 1, 'v', 2.5, [1, 2], True, [[1], [2]], 0.0, (1,), {'a': 1}, -1,
-                (), {}, set(), b'', 0j, -0.0, decimal.Decimal('0'), fractions.Fraction(0), Falsy(), range(0), frozenset()]
+                (), {}, set(), b'', 0j, -0.0, decimal.Decimal('0'), fractions.Fraction(0), Falsy(), range(0), frozenset(),
+                # values that are callable are values: handed on as they are, never called
+                len, dict, (lambda: 'called'), fractions.Fraction, [].append, type('Tick', (object,), {'__call__': lambda self: 'called'})()]
         for _ in range(spec['n']):
             e = hx.Env()
             self.e = e
